@@ -61,10 +61,24 @@ def run(v, tier, seed, replay=None):
                 v.violation('C06:resize:%s' % ('hang' if o.startswith('HANG') else 'other'),
                             'write session whose container size is changed from %d to %d after %d of %d objects: %s [%s]' % (t[0], t[1], t[2], t[2] + t[3], o[:80], nm),
                             {'scenario': 'FC %d %d %d %d' % t, 'implementation': o[:200]})
+    # ... and taking effect exactly between two operations of a worker on the stream (the worker parked at its k-th acquisition
+    # of the stream's mutex while the application calls setDefaultLogContainerSize): the former code read the size twice per
+    # container, sized the destination with one value and requested the other
+    gz = [(64, 300000, k, 9000) for k in range(6)] + [(300000, 64, k, 9000) for k in range(4)] + [(4096, 100000, k, 4000) for k in range(4)]
+    go = sessrun.run_impl(sched, ['FG %d %d %d %d' % t for t in gz], 0, {'VERIF_WD_SECONDS': '20'})
+    for t, o in zip(gz, go):
+        if o == 'SKIPPED':
+            continue
+        if not (o.startswith('FG ok') and o.endswith('n=%d inorder=1' % t[3])):
+            nbad += 1
+            v.violation('C06:resize-at:%s' % ('hang' if o.startswith('HANG') else 'crash' if o.startswith('CRASH') else 'other'),
+                        'write session whose container size is changed from %d to %d while a worker is about to take the stream mutex for the %d-th time, then %d objects: %s' % (t[0], t[1], t[2] + 1, t[3], o[:100]),
+                        {'scenario': 'FG %d %d %d %d' % t, 'build': 'sched:0 (steered)', 'implementation': o[:300]})
     # one read request larger than the buffer (deadlocked before the repair of UncompressedFile::read; C06_read_request_above_buffer_finishes)
     big, _ = sessrun.big_read_file(mexe, 3, 0x20000, rng, text=200000)
     big2, _ = sessrun.big_read_file(mexe, 2, 0x8000, rng, text=300000)
-    for nm, data, bl in (('plain', big, plain), ('sched', big, sched), ('plain', big2, plain)):
+    big3, _ = sessrun.big_read_file(mexe, 3, 0x20000, rng, text=1600000)      # valid objects of 1.6 MB: above 8 containers / the buffer many times over
+    for nm, data, bl in (('plain', big, plain), ('sched', big, sched), ('plain', big2, plain), ('plain', big3, plain)):
         ko = sessrun.run_impl(bl, ['FE -1 0 0 ' + data.hex()], seed + 9)
         if ko[0].startswith('HANG'):
             nbad += 1
@@ -114,10 +128,10 @@ def run(v, tier, seed, replay=None):
     v.coverage.update({
         'obligations': info['obligations'], 'discharged': info['discharged'], 'checker_cmd': info['checker_cmd'],
         'trusted_base': TRUSTED + info['print_assumptions'], 'failed_obligations': info['failed'],
-        'evaluations': len(cases) * len(runs) + 2 * len(wl) + 3 + 2 * len(rz) + len(kcases) * len(kruns), 'distinct_nontrivial': len(cases) + len(wl) + 2 + len(kcases),
+        'evaluations': len(cases) * len(runs) + 2 * len(wl) + 4 + 2 * len(rz) + len(gz) + len(kcases) * len(kruns), 'distinct_nontrivial': len(cases) + len(wl) + 2 + len(kcases),
         'close_at': {'cases': len(kcases), 'builds': [n for n, _ in kruns], 'worker_parked_at_the_chosen_operation': nparked,
                      'close_points_at_which_the_former_search_spins_in_the_model': old_spins},
-        'rule': 'read sessions on assembled files large enough to fill the pipeline (9000 objects in 4 KiB containers, 6000 in 128 KiB containers, 30 in 64-byte containers): read k in {0,3,11,all} objects, pause so that both workers block on full buffers, then close() / destroy / close twice then destroy; write sessions with container sizes below, at and above the construction-time buffer and objects larger than both; write sessions whose container size is changed mid-way (shrunk and grown); read sessions over files whose objects (200000 / 300000 bytes) need a single read request larger than the internal buffer; each on the plain build and on builds with seeded yield/sleep injection at every lock/unlock/wait; read sessions in which close() takes effect exactly before the k-th operation of the inflating worker on the compressed file, for every k up to several containers (the worker is parked at that acquisition of the mutex of CompressedFile and released once close() has closed the fstream). A watchdog expiry is a hang. Non-trivial = distinct scenario.',
+        'rule': 'read sessions on assembled files large enough to fill the pipeline (9000 objects in 4 KiB containers, 6000 in 128 KiB containers, 30 in 64-byte containers): read k in {0,3,11,all} objects, pause so that both workers block on full buffers, then close() / destroy / close twice then destroy; write sessions with container sizes below, at and above the construction-time buffer and objects larger than both; write sessions whose container size is changed mid-way (shrunk and grown), also exactly between two operations of a worker on the stream (worker parked at its k-th acquisition of the stream mutex); read sessions over files whose objects (200000 / 300000 / 1600000 bytes) need a single read request larger than the internal buffer; each on the plain build and on builds with seeded yield/sleep injection at every lock/unlock/wait; read sessions in which close() takes effect exactly before the k-th operation of the inflating worker on the compressed file, for every k up to several containers (the worker is parked at that acquisition of the mutex of CompressedFile and released once close() has closed the fstream). A watchdog expiry is a hang. Non-trivial = distinct scenario.',
         'builds': [n for n, _ in runs], 'hangs_or_crashes': nbad,
         'samples': [c['line'][:60] + '...' for c in cases[:3]] + [w['line'][:80] + '...' for w in wl[:2]],
         'theorems': ['C06_write_stuck_free', 'C06_write_terminates', 'C06_read_stuck_free', 'C06_read_request_above_buffer_finishes', 'C06_code_shape', 'C06_close_under_inflating_worker', 'C06_search_stops_on_failed_stream', 'C06_old_search_refuted', 'C06_close_example'],
